@@ -418,6 +418,11 @@ fn run_all(ctx: &mut Ctx) {
         t.check("L6 DateTime -> i64", None, "DateTime<ns>", "i64", format!("{v}"), catch(|| Cast::<i64>::cast(DateTime::<Nanosecond>::new(v))), &v);
         t.check("L7 DateTime -> Option<i64>", None, "DateTime<ns>", "Option<i64>", format!("{v}"), catch(|| Cast::<Option<i64>>::cast(DateTime::<Nanosecond>::new(v))), &Some(v));
         t.check("L7 Time -> Option<i64>", None, "Time", "Option<i64>", format!("{v}"), catch(|| Cast::<Option<i64>>::cast(Time(v))), &Some(v));
+        t.check("L6 Time -> i64", None, "Time", "i64", format!("{v}"), catch(|| Cast::<i64>::cast(Time(v))), &v);
+        // a month-free duration counts microseconds (a duration with months -> i64 is a documented panic, not driven)
+        let d = TimeDelta::from(v * 1000);
+        t.check("L6 TimeDelta -> i64", None, "TimeDelta", "i64", format!("{v}us"), catch(|| Cast::<i64>::cast(d)), &v);
+        t.check("L7 TimeDelta -> Option<i64>", None, "TimeDelta", "Option<i64>", format!("{v}us"), catch(|| Cast::<Option<i64>>::cast(d)), &Some(v));
     }
     t.check("L5 NaT -> Option<i64>", None, "DateTime<ns>", "Option<i64>", "NaT".into(), catch(|| Cast::<Option<i64>>::cast(DateTime::<Nanosecond>::nat())), &None);
     t.check("L5 NaT -> Option<i64>", None, "Time", "Option<i64>", "NaT".into(), catch(|| Cast::<Option<i64>>::cast(Time::nat())), &None);
